@@ -97,6 +97,10 @@ def run_case(case):
             for serial in (True, False):
                 runs.append((fields, limit, serial))
 
+    if case.get('wide'):
+        # more than a thousand boxes on a level: the runs that differ in how the boxes of a level are handed out
+        runs = [([ref.fields[0], 'grid_level'], None, True), (['all'], None, False)] + ([(list(ref.fields)[::-1], 0, False)] if ref.nlev > 1 else [])
+
     def cli_argv(fields, limit, serial):
         argv = ['mandoline', 'plt', '--variables'] + list(fields) + ['--format', 'array', '--output', 'flat']
         if limit is not None:
@@ -178,7 +182,7 @@ def run_case(case):
                 if sig not in viol:
                     viol[sig] = {'signature': sig, 'what': msg, 'args': [fields, limit, serial]}
     fl_ = field_lists(ref.fields)
-    for fields, limit, serial in [(fl_[2 % len(fl_)], 0, True), (fl_[0], None, False)] + ([(fl_[1], ref.nlev - 1, True)] if ref.nlev > 1 else []):
+    for fields, limit, serial in ([(fl_[2 % len(fl_)], 0, True), (fl_[0], None, False)] + ([(fl_[1], ref.nlev - 1, True)] if ref.nlev > 1 else [])) if not case.get('wide') else []:
         results, exhaustive, stats = one_cli(fields, limit, serial)
         res.add_explore(results, exhaustive, stats)
         for ctx, obl in results:
@@ -187,7 +191,7 @@ def run_case(case):
                 sig = 'C08/cli/%s' % ('limit' if limit is not None and limit < ref.nlev - 1 else 'finest')
                 if sig not in viol:
                     viol[sig] = {'signature': sig, 'what': obl.failed[0][0], 'args': [fields, limit, serial], 'cli': cli_argv(fields, limit, serial)}
-    for fields, limit, serial in [(fl_[3 % len(fl_)], None, False), (fl_[-1], 0, True)]:
+    for fields, limit, serial in [(fl_[3 % len(fl_)], None, False), (fl_[-1], 0, True)] if not case.get('wide') else []:
         results, exhaustive, stats = one(fields, limit, serial, again=True)
         res.add_explore(results, exhaustive, stats)
         for ctx, obl in results:
@@ -195,7 +199,7 @@ def run_case(case):
             if obl.failed and 'C08/history' not in viol:
                 viol['C08/history'] = {'signature': 'C08/history', 'what': obl.failed[0][0], 'args': [fields, limit, serial], 'again': True}
     # the limit as a numpy integer (a loop over np.arange)
-    for fields, limit, serial in [(fl_[1 % len(fl_)], 0, True)]:
+    for fields, limit, serial in [(fl_[1 % len(fl_)], 0, True)] if not case.get('wide') else []:
         results, exhaustive, stats = one(fields, limit, serial, np_limit=True)
         res.add_explore(results, exhaustive, stats)
         for ctx, obl in results:
@@ -262,6 +266,10 @@ def cases():
         for k in range(2 if tier == 'quick' else 4):
             out.append({'label': '%s/k%d' % (m.name, k), 'mesh': m, 'fields': fsets[(i + k) % len(fsets)],
                         'layout': families.scatter_layouts(m, rnd, max_files=3), 'geom': (i + k) % 3})
+    # many boxes on a level (beyond 1024; beyond 64 and 256 on the refined level of the second structure), dealt over three files
+    for counts, fine, fields in [((33, 32), None, fsets[1]), ((20, 15), 290, fsets[0])] + ([] if tier == 'quick' else [((65, 32), None, fsets[0]), ((40, 30), 1100, fsets[1])]):
+        gm = families.grid_mesh(counts, fine=fine)
+        out.append({'label': gm.name, 'mesh': gm, 'fields': fields, 'layout': [families.dealt_layout(nb_, 3, stride=2 + li) for li, nb_ in enumerate(gm.nboxes())], 'geom': 1, 'wide': True})
     n = 0
     while n < (10 if tier == 'quick' else 250):
         m = families.random_mesh(rnd, 2, max_levels=3, max_boxes=4)
@@ -281,7 +289,7 @@ def main():
     rep.assumptions = ['payload words arbitrary (identity obligations: replication must not touch the value)',
                        'domains narrower than 3 finest cells along x are outside (format_array_output reads x_grid[2])',
                        'geometry constants dyadic: coordinates compared to 1e-12']
-    rep.bounds = {'levels': '1-3', 'boxes_per_level': '1-4', 'box_extent': '1-6'}
+    rep.bounds = {'levels': '1-3', 'boxes_per_level': '1-4 with every field list x limit x mode; 1056 and 300+290 (quick) / up to 2080 and 1200+1100 (thorough) one-cell boxes with three runs each', 'box_extent': '1-6'}
     common.run_cases(rep, run_case, cases())
     from harness import k_lemmas
     k_lemmas.run_into(rep, ['k_expand', 'k_slicebox'])
